@@ -6,6 +6,7 @@ import Ivg.Gen.Tie.Magic
 import Ivg.Gen.Tie.Code.Color
 import Ivg.Gen.Tie.Code.EncColors
 import Ivg.Gen.Tie.Code.DecColors
+import Ivg.Gen.Tie.Code.Resolve
 import Ivg.Obligations
 /-!
 # C09 — colours are stored exactly; colour forms and blending follow the tables
@@ -355,4 +356,9 @@ end Ivg.Props.C09
   Ivg.Gen.Tie.decodeColor2_model_eq,
   Ivg.Gen.Tie.decodeColor3Direct_model_eq,
   Ivg.Gen.Tie.decodeColor4_model_eq,
-  Ivg.Gen.Tie.decodeColor3Indirect_model_eq]
+  Ivg.Gen.Tie.decodeColor3Indirect_model_eq,
+  -- regenerated code with loops/recursion (translator, fuel) = model, for all inputs and sufficient fuel: Resolve
+  Ivg.Gen.Tie.color_Resolve_code_tie,
+  Ivg.Gen.Tie.color_Resolve_code_tie_badTyp,
+  Ivg.Gen.Tie.renderer_SetCReg_code_tie,
+  Ivg.Gen.Tie.renderer_SetCReg_code_tie']
